@@ -74,7 +74,7 @@ async fn import(s: &mut Stream, ops: Vec<Operation>) -> bool {
     let sid = fut.session_id();
     let mut failed = false;
     loop {
-        let ev = tokio::time::timeout(Duration::from_secs(60), s.events.recv())
+        let ev = tokio::time::timeout(Duration::from_secs(600), s.events.recv())
             .await
             .expect("import did not finish")
             .expect("event stream closed");
@@ -222,7 +222,7 @@ async fn run_case(node: &Node, node_key: &SigningKey, payload: &str) -> String {
                 .expect("publish");
                 names.insert(fut.hash(), 501 + published);
                 published += 1;
-                let event = tokio::time::timeout(Duration::from_secs(60), fut)
+                let event = tokio::time::timeout(Duration::from_secs(600), fut)
                     .await
                     .expect("publish did not finish")
                     .expect("publish result");
